@@ -21,9 +21,13 @@ def run(ctx):
     for tag, (spec, mod_, _) in SPECS.items():
         if mod_ == "harness_merge":
             vlib.seq_differential(ctx, spec, exe, proofs_ok, tag=tag)
+            if ctx.tier == "thorough":
+                vlib.patience_part(ctx, spec, exe, proofs_ok, tag=tag)
     okS, outS, exeS = vlib.build_runner()
     if okS:
         vlib.seq_differential(ctx, ScaleSpec(['chans-merge']), exeS, proofs_ok, tag="scale")
+    else:
+        ctx.violation("harness-build", "the harness does not build against the current tree: " + outS[-1500:], {"build_output": outS[-4000:]}, failing_input=False)
     vlib.merge_parts(ctx, "cases = controller scripts run against the real code: chans.Merge with 0,1,2,3,4,5,7 inputs (all four code paths) and "
                      "chans.Replicate with 0-3 destinations over buffered/unbuffered channels, producers and consumers that move only on the controller's "
                      "commands (send/close order, bursts, inputs that close at once or stay silent, slow or absent consumers); stream.Merge over 0-4 gated "
